@@ -207,10 +207,31 @@ func decodeMsg(codec string, desc protoreflect.MessageDescriptor, data []byte) (
 // identify returns the 1-based index of the dictionary message equal to the
 // decoded payload, 0 when it decodes but equals none ("ALIEN"), -1 when it
 // does not decode.
+// convertMsg re-reads a message as another type with the same wire form (Msg <-> Reply).
+func convertMsg(m proto.Message, as protoreflect.MessageDescriptor) proto.Message {
+	raw, err := proto.MarshalOptions{Deterministic: true}.Marshal(m)
+	if err != nil {
+		return nil
+	}
+	out := dynamicpb.NewMessage(as)
+	if err := proto.Unmarshal(raw, out); err != nil {
+		return nil
+	}
+	return out
+}
+
 func identify(codec string, desc protoreflect.MessageDescriptor, data []byte, dict []proto.Message, hint int) int {
 	m, err := decodeMsg(codec, desc, data)
 	if err != nil {
 		return -1
+	}
+	if desc.FullName() == "verif.v1.Reply" {
+		// Reply is Msg under another name: compare in Msg's terms
+		mm := convertMsg(m, msgDesc("Msg"))
+		if mm == nil {
+			return -1
+		}
+		m, desc = mm, mm.ProtoReflect().Descriptor()
 	}
 	// equal messages can occur twice in a dictionary (two empty messages): prefer the expected one
 	if hint >= 1 && hint <= len(dict) && dict[hint-1] != nil && dict[hint-1].ProtoReflect().Descriptor() == desc && proto.Equal(m, dict[hint-1]) {
